@@ -2,8 +2,12 @@
 import json, os, sys, time
 
 VERIF = os.path.dirname(os.path.dirname(os.path.abspath(__file__)))
-EVIDENCE_DIR = os.path.join(VERIF, "evidence")
-REPLAY_DIR = os.path.join(VERIF, "evidence", "replay")
+if os.environ.get("SC_REPO") and os.path.realpath(os.environ["SC_REPO"]) != "/repo":
+    # checks pointed at a scratch copy (self-test, seeded changes) never touch the committed evidence
+    EVIDENCE_DIR = os.path.join(os.environ.get("TMPDIR", "/tmp"), "scverif-evidence-scratch")
+else:
+    EVIDENCE_DIR = os.path.join(VERIF, "evidence")
+REPLAY_DIR = os.path.join(EVIDENCE_DIR, "replay")
 KNOWN = os.path.join(VERIF, "known_findings.json")
 
 
